@@ -50,7 +50,10 @@ def discharge_sql(chk: Check, eng: SqlEngine, function: str, clause_id: str, cla
         uniq[tx] = r
     ob.seconds = time.time() - t0
     backends = set()
-    for i, text, p in queries:
+    # order-independent verdict: a counter-model on any path wins over `unknown` / out-of-model on an earlier path
+    ordered = ([q for q in queries if q[2].kind != "abort" and uniq[q[1]].status == "sat"]
+               + [q for q in queries if not (q[2].kind != "abort" and uniq[q[1]].status == "sat")])
+    for i, text, p in ordered:
         r = uniq[text]
         backends.add(r.backend)
         if r.status == "unsat":
@@ -84,15 +87,48 @@ def discharge_sql(chk: Check, eng: SqlEngine, function: str, clause_id: str, cla
     return ob
 
 
+NATIVE_BACKEND = "bounded-native-search(duckdb)"
+
+
+def _undecided(ob: Obligation, detail: str,
+               fallback: Optional[Callable[[], Optional[Tuple[bool, str, Any, str]]]]) -> Obligation:
+    """Deductive route exhausted without a verdict.  With a `fallback` (bounded search through the real code against
+    the computable specification) a concrete disagreement is a violation that is already replayed natively; otherwise,
+    and when the search finds nothing, the obligation stays undecided."""
+    ob.status, ob.detail = UNDECIDED, detail
+    if fallback is None:
+        return ob
+    try:
+        res = fallback()
+    except Exception as e:  # noqa: BLE001
+        ob.detail = f"{detail}; bounded native search not possible: {type(e).__name__}: {e}"
+        return ob
+    if res is None:
+        return ob
+    found, fdetail, wit, key = res
+    ob.detail = f"{detail}; {fdetail}"
+    if found:
+        ob.status, ob.backend = REFUTED, NATIVE_BACKEND
+        ob.witness, ob.replayed, ob.replay_detail = wit, True, fdetail
+        if key:
+            ob.finding_key = key
+    return ob
+
+
 def discharge_groups(chk: Check, eng: SqlEngine, function: str, clause_id: str, clause_text: str,
                      groups: Sequence[Tuple[Dict[str, Any], Sequence[SqlPath], Sequence[Any], Callable[[SqlPath], Any]]],
                      model_vars: Sequence[str] = (),
                      replay: Optional[Callable[[Dict[str, Any], SqlPath], Tuple[Optional[bool], str, Any]]] = None,
                      finding_key: Optional[Callable[[Dict[str, Any], SqlPath], str]] = None,
-                     prefer: Sequence[Any] = (), timeout: float = 30.0) -> Obligation:
+                     prefer: Sequence[Any] = (), timeout: float = 30.0,
+                     fallback: Optional[Callable[[], Optional[Tuple[bool, str, Any, str]]]] = None) -> Obligation:
     """One obligation over several case groups (e.g. one per concrete period number).  Each group is
     (fixed values merged into the counter-model, paths, precondition, postcondition).  `prefer` = extra constraints
-    tried when a counter-model exists, to report a witness inside the property's own range when there is one."""
+    tried when a counter-model exists, to report a witness inside the property's own range when there is one.
+    `fallback` = bounded search on the REAL code, called only when the deductive route ends undecided (solver
+    `unknown`, or a feasible path outside the SQL model): returns (disagreement found, detail, witness, finding key).
+    A concrete disagreement between the real code and the specification is a replayed violation; no disagreement
+    leaves the obligation undecided (a bounded search proves nothing)."""
     import os
     oid = f"{function}::{clause_id}"
     only = os.environ.get("VERIF_ONLY")
@@ -126,19 +162,21 @@ def discharge_groups(chk: Check, eng: SqlEngine, function: str, clause_id: str, 
         uniq[tx] = r
     ob.seconds = time.time() - t0
     backends = set()
-    for text, p, fixed, asserts, goal in queries:
+    # The verdict must not depend on the order of the paths: a counter-model on ANY path refutes the clause, whatever
+    # the solver answered on the paths examined before it (an `unknown` on path 0 used to hide a `sat` on path 2).
+    ordered = ([q for q in queries if q[1].kind != "abort" and uniq[q[0]].status == "sat"]
+               + [q for q in queries if not (q[1].kind != "abort" and uniq[q[0]].status == "sat")])
+    for text, p, fixed, asserts, goal in ordered:
         r = uniq[text]
         backends.add(r.backend)
         if r.status == "unsat":
             continue
         ob.backend = "+".join(sorted(backends))
         if p.kind == "abort":
-            ob.status = UNDECIDED
-            ob.detail = f"a path leaves the SQL model and is feasible (or undecided) under the precondition: {p.value}"
-            return ob
+            return _undecided(ob, "a path leaves the SQL model and is feasible (or undecided) under the precondition: "
+                              f"{p.value}", fallback)
         if r.status == "unknown":
-            ob.status, ob.detail = UNDECIDED, f"solver unknown ({fixed}): {r.raw[:160]}"
-            return ob
+            return _undecided(ob, f"solver unknown ({fixed}): {r.raw[:160]}", fallback)
         model = dict(r.model)
         if prefer:
             # look for a witness inside the preferred range on any refuted path (nicer to read and to replay)
